@@ -96,7 +96,9 @@ type Op struct {
 	Fault *WFault `json:"fault,omitempty"`
 	// Sub > 0 (C13): the operation is applied to statement (Sub-1) mod n of the
 	// root instead of to the root (printing, dumping, traversing or resolving a
-	// part of a tree must leave the whole tree unchanged too)
+	// part of a tree must leave the whole tree unchanged too). Sub < 0: applied to
+	// vertex number (-Sub-1) mod n of the tree in pre-order (any inner vertex:
+	// an expression, a name, a class member ...). Also used by C11 pipelines.
 	Sub int `json:"sub,omitempty"`
 }
 
